@@ -191,7 +191,7 @@ func Check(w *symex.World, plan *Plan, opt Options) int {
 			}
 			if res {
 				conf = true
-				r.Notes = append(r.Notes, "confirmed by go test -race: DATA RACE reported when 8 goroutines run this model concurrently")
+				r.Notes = append(r.Notes, "confirmed by go test -race with 8 goroutines on this model: DATA RACE reported, or a goroutine's results differ from what its inputs give on a model of their own")
 			}
 		}
 		if conf {
